@@ -1,3 +1,4 @@
+\* 3 threads on one WAL entity, 2 operations each (snapshot truncates the log)
 CONSTANTS
   t1 = t1
   t2 = t2
@@ -7,11 +8,11 @@ CONSTANTS
   w1 = w1
   n1 = n1
   Threads = {t1,t2,t3}
-  Entities = {w1,e1}
+  Entities = {w1}
   WalEntities = {w1}
   NewEntities = {}
   MaxOps = 2
-  Ops = {"ok","reject","noop","snap","read"}
+  Ops = {"ok","reject","noop","snap","lsnap","read"}
   LockMode = "write"
 SPECIFICATION Spec
 INVARIANT Safety
